@@ -418,7 +418,22 @@ def feasible_point_list(rng, vs: Sequence[str], n: int, style: str = "int") -> L
 
 def containment_pair(rng) -> Dict[str, Any]:  # noqa: C901
     fam = rng.choice(["unrelated", "weaken", "farkas", "boundary", "separated", "reflexive", "sublist",
-                      "unbounded", "emptyleft", "emptyright", "near", "unrelated", "farkas", "weaken"])
+                      "unbounded", "emptyleft", "emptyright", "near", "unrelated", "farkas", "weaken", "huge"])
+    if fam == "huge":
+        # constants (and some coefficients) far beyond the usual range: the right side is missed by a wide margin
+        # or contains the left side with a wide margin
+        vs = VN[: rng.randint(1, 3)]
+        left = feasible_point_list(rng, vs, rng.randint(1, 3), "int")
+        v = rng.choice(vs)
+        big = float(rng.choice([1e5, 1e6, 1e7, 1e8, 1e9])) * rng.choice([1.0, 2.0, 2.5])
+        co = float(rng.choice([1, 2, 1000, 100000]))
+        sign = rng.choice([1.0, -1.0])
+        if rng.random() < 0.5:
+            right = [T({v: sign * co}, -big)]          # needs |v| >= big/co: far away from the left side
+        else:
+            right = [T({v: sign * co}, big)]
+            left = left + bounds(rng, v, -3.0, 3.0)     # contained with a wide margin
+        return {"kind": "list", "family": fam, "style": "int", "left": left, "right": right}
     style = rng.choice(["int", "int", "dyadic", "int", "decimal", "float", "wide"])
     if fam in ("near",):
         style = "int"
@@ -592,6 +607,16 @@ def compose_case(rng, kind: Optional[str] = None) -> Dict[str, Any]:
         c2["a"] = [t for t in c2["a"] if "f1" not in t["c"]]
     dup_noise(rng, c1)
     dup_noise(rng, c2)
+    common_in = [v for v in i1 if v in i2]
+    if common_in and rng.random() < 0.5:
+        # the same assumption on a shared input stated by both contracts (identical, or scaled)
+        src, dst = (c1, c2) if rng.random() < 0.5 else (c2, c1)
+        cand = [t for t in src["a"] if set(t["c"]) <= set(common_in)]
+        t = rng.choice(cand) if cand else T({common_in[0]: 1.0}, const(rng, style, 3, 9))
+        if not cand:
+            src["a"].append(dict(c=dict(t["c"]), k=t["k"]))
+        dst["a"].insert(rng.randint(0, len(dst["a"])), dict(c=dict(t["c"]), k=t["k"]) if rng.random() < 0.7
+                        else scale(t, 2.0))
     outs = o1 + o2
     keep: List[str] = []
     r = rng.random()
